@@ -50,6 +50,7 @@ func runC10(c *core.Ctx) {
 	c10R3(c)
 	c10R5(c, "C10.R5")
 	c10R6(c)
+	poolRule(c, "C10.R4", "network/mqtt")
 }
 
 func c10Flush(c *core.Ctx, rule string) {
